@@ -128,8 +128,6 @@ mut("C18-revert-file-id-restore", "axlcomp.c",
     "	emitSetFileIdName(fileId);", "	(void) fileId;")
 
 
-mut("C10-revert-pgcount-width", "store.c",
-    "	int		pgCount;	/* Number of pages in section. */", "	short		pgCount;	/* Number of pages in section. */")
 mut("C17-revert-archive-header-without-data", "archive.c",
     "	if (!arSeek(ar, arPosition(ar)) && size > 0)\n		/* A header that promises data at the very end of the file. */\n		comsgError(NULL, ALDOR_E_ArTruncated, arToString(ar));",
     "	arSeek(ar, arPosition(ar));")
